@@ -1985,3 +1985,206 @@ fn rev_delta(rng: &mut Rng, vtype: &str, elements: usize, k: usize) -> String {
         .collect::<Vec<_>>()
         .join("+")
 }
+
+// ---------------------------------------------------------------------------------------------
+// c04_race (b20): the running MACs of ONE validation batch under CONCURRENT `accumulate_macs` calls.
+//
+//   c04.race <field> <who 1|2|3|all> <T> <R> <S> <rpb> <seed>  ->  validated=<n> rounds=<R>
+//
+// One TestWorld; every round takes a fresh MAC validator per helper (`malicious_contexts()` hands out a fresh gate;
+// total records = rpb = active work, i.e. exactly ONE validation batch). The batch key r is read through the test
+// accessor `Upgraded::r`; for every (step s < S, record < rpb) a value x is drawn and consistent sharings ([x], [r x]) are
+// handed to the helpers — a perfectly honest batch. On the helper(s) named by <who>, T real OS threads (std::thread,
+// released together by a spin barrier) call the REAL `Upgraded::accumulate_macs` (the wrapper that upgrade / mac_multiply /
+// the MAC reshare use) for their items: item j = s*rpb + record goes to thread j mod T, so at any moment the threads work
+// on DISTINCT records of the SAME batch; the other helpers accumulate the same items on one thread each. Then all rpb
+// records are validated on the three helpers (`validate_record`: propagate u/w, open r, T = u - r w, check-zero).
+// Response: the number of rounds whose batch validated on all three helpers. Nobody deviates, so every round must
+// validate whatever the scheduling (theorems `accumulate_atomic_sum`, `concurrent_honest_validates`): deterministic on a
+// correct tree. If the update of (u, w) is not one critical section, a helper loses a local contribution, T is no
+// longer a sharing of zero and the honest batch is rejected (` first=<round>:<helper>:<error>` is appended then).
+macro_rules! race_field {
+    ($name:ident, $f:ty) => {
+fn $name(who: &str, threads: usize, rounds: usize, steps: usize, rpb: usize, seed: u64) -> String {
+    type F = $f;
+    use std::sync::atomic::AtomicBool;
+    let mut rng = Rng(seed);
+    let multi: Vec<bool> = (0..3).map(|h| who == "all" || who.parse::<usize>().ok() == Some(h + 1)).collect();
+    assert!(multi.iter().any(|m| *m), "harness: who = 1|2|3|all");
+    let active = NonZeroU32PowerOfTwo::try_from(rpb).expect("harness: rpb must be a power of two");
+    let mut world = TestWorld::new_with(TestWorldConfig::default().with_seed(rng.below(1 << 40)));
+    let mut validated = 0usize;
+    let mut first_fail: Option<String> = None;
+    for round in 0..rounds {
+        // `malicious_contexts` hands out at most 999 gates per world
+        if round > 0 && round % 900 == 0 {
+            world = TestWorld::new_with(TestWorldConfig::default().with_seed(rng.below(1 << 40)));
+        }
+        let validators: Vec<_> = world
+            .malicious_contexts()
+            .into_iter()
+            .map(|ctx| ctx.set_active_work(active).set_total_records(rpb).validator::<F>())
+            .collect();
+        let m_ctxs: Vec<_> = validators.iter().map(|v| v.context()).collect();
+        let rs: Vec<Replicated<F>> = m_ctxs.iter().map(|c| c.r(RecordId::FIRST)).collect();
+        // helper i holds (r_i, r_{i+1}): the key is the sum of the left components
+        let r: F = rs[0].left() + rs[1].left() + rs[2].left();
+        assert!(rs[0].right() == rs[1].left() && rs[1].right() == rs[2].left() && rs[2].right() == rs[0].left(), "harness: r is a replicated sharing");
+        // honest work: ([x], [r x]) for every (step, record), split by helper
+        let mut work: Vec<Vec<(usize, usize, MaliciousReplicated<F>)>> = vec![vec![], vec![], vec![]];
+        for s in 0..steps {
+            for record in 0..rpb {
+                let x: F = draw_canonical::<F>(&mut rng);
+                let xs = share3::<F>(&mut rng, x);
+                let rxs = share3::<F>(&mut rng, r * x);
+                for (h, (xh, rxh)) in xs.into_iter().zip(rxs).enumerate() {
+                    work[h].push((s, record, MaliciousReplicated::new(xh, rxh)));
+                }
+            }
+        }
+        // narrowed contexts per (helper, step), made before the threads start
+        let stepped: Vec<Vec<_>> = m_ctxs.iter().map(|c| (0..steps).map(|s| c.narrow(&format!("race{s}"))).collect()).collect();
+        let total_threads: usize = multi.iter().map(|m| if *m { threads } else { 1 }).sum();
+        let arrived = AtomicUsize::new(0);
+        let panicked = AtomicBool::new(false);
+        std::thread::scope(|sc| {
+            for h in 0..3 {
+                let k = if multi[h] { threads } else { 1 };
+                for t in 0..k {
+                    let (work, stepped, arrived, panicked) = (&work[h], &stepped[h], &arrived, &panicked);
+                    sc.spawn(move || {
+                        // spin barrier: all threads of all helpers leave it within a few nanoseconds of each other
+                        arrived.fetch_add(1, Ordering::SeqCst);
+                        let mut spins = 0u32;
+                        while arrived.load(Ordering::Acquire) < total_threads {
+                            spins += 1;
+                            if spins % 4096 == 0 {
+                                std::thread::yield_now();
+                            } else {
+                                std::hint::spin_loop();
+                            }
+                        }
+                        let r = std::panic::catch_unwind(std::panic::AssertUnwindSafe(|| {
+                            for (s, record, share) in work.iter().skip(t).step_by(k) {
+                                stepped[*s].clone().accumulate_macs(RecordId::from(*record), share);
+                            }
+                        }));
+                        if r.is_err() {
+                            panicked.store(true, Ordering::SeqCst);
+                        }
+                    });
+                }
+            }
+        });
+        assert!(!panicked.load(Ordering::SeqCst), "harness: accumulate_macs panicked in round {round}");
+        // ... and the batch is validated: every record of it, on every helper
+        let results: Vec<Vec<Result<(), Error>>> = tokio::runtime::Handle::current().block_on(futures::future::join_all(
+            m_ctxs.iter().map(|ctx| futures::future::join_all((0..rpb).map(move |i| ctx.validate_record(RecordId::from(i))))),
+        ));
+        let bad = results.iter().enumerate().find_map(|(h, rs)| rs.iter().find_map(|r| r.as_ref().err().map(|e| format!("{round}:{}:{}", h + 1, kind(e)))));
+        match bad {
+            None => validated += 1,
+            Some(b) => {
+                first_fail.get_or_insert(b);
+            }
+        }
+        drop(m_ctxs);
+        drop(stepped);
+        drop(validators);
+    }
+    match first_fail {
+        None => format!("validated={validated} rounds={rounds}"),
+        Some(f) => format!("validated={validated} rounds={rounds} first={f}"),
+    }
+}
+
+    };
+}
+race_field!(race_fp31, Fp31);
+race_field!(race_fp32, Fp32BitPrime);
+race_field!(race_fp25519, Fp25519);
+
+fn exec_race(req: &str) -> String {
+    let t: Vec<&str> = req.split(' ').collect();
+    assert_eq!(t[0], "c04.race");
+    let (field, who) = (t[1].to_string(), t[2].to_string());
+    let p: Vec<usize> = t[3..7].iter().map(|x| x.parse().unwrap()).collect();
+    let (threads, rounds, steps, rpb) = (p[0], p[1], p[2], p[3]);
+    let seed: u64 = t[7].parse().unwrap();
+    assert!((1..=32).contains(&threads) && rounds <= 100_000 && (1..=4096).contains(&steps) && (2..=4096).contains(&rpb), "harness: bad race parameters");
+    let r = block_on_timeout(600, async move {
+        // the world's background tasks live on this runtime; the rounds block one of its workers
+        tokio::task::spawn_blocking(move || match field.as_str() {
+            "Fp31" => race_fp31(&who, threads, rounds, steps, rpb, seed),
+            "Fp32BitPrime" => race_fp32(&who, threads, rounds, steps, rpb, seed),
+            "Fp25519" => race_fp25519(&who, threads, rounds, steps, rpb, seed),
+            f => panic!("harness: unknown field {f}"),
+        })
+        .await
+    });
+    match r {
+        Ok(Ok(s)) => s,
+        Ok(Err(e)) => match e.try_into_panic() {
+            Ok(p) => std::panic::resume_unwind(p),
+            Err(e) => format!("join:{e}"),
+        },
+        Err(e) => e,
+    }
+}
+
+#[test]
+fn verif_c04_race() {
+    run_suite(
+        "c04_race",
+        |rng, thorough| {
+            let k = if thorough { 20 } else { 1 };
+            let mut out = vec![];
+            // (field, who, threads, rounds, steps, records per batch)
+            for (field, who, threads, rounds, steps, rpb) in [
+                ("Fp32BitPrime", "1", 4usize, 150usize, 8usize, 16usize),
+                ("Fp32BitPrime", "all", 4, 100, 8, 16),
+                ("Fp32BitPrime", "2", 2, 100, 16, 4),
+                ("Fp25519", "3", 4, 60, 4, 16),
+                ("Fp32BitPrime", "all", 3, 40, 2, 64),
+                ("Fp31", "1", 8, 60, 8, 8),
+                ("Fp32BitPrime", "1", 1, 20, 8, 16),
+            ] {
+                out.push(format!("c04.race {field} {who} {threads} {} {steps} {rpb} {}", rounds * k, rng.below(1 << 40)));
+            }
+            out
+        },
+        exec_race,
+    );
+}
+
+// The same under `--features "ipa-verif multi-threading"` (props/C04.json `extra_builds`, target shared with C15's `mt`
+// build): there `seq_join` / `try_join` SPAWN the per-record futures on the runtime's worker threads, so in `c04.honest` the
+// records of one batch reach `accumulate_macs` (through the real upgrade / multiply) from several OS threads by themselves —
+// the production path on which a non-atomic update of (u, w) bites. Large batches (many records in flight), honest runs
+// must open the plaintext values with consistent MACs; plus the explicit thread race again in this build.
+#[cfg(feature = "multi-threading")]
+#[test]
+fn verif_c04mt_race() {
+    run_suite(
+        "c04mt_race",
+        |rng, thorough| {
+            let k = if thorough { 10 } else { 1 };
+            let mut out = vec![];
+            for (field, who, threads, rounds, steps, rpb) in [("Fp32BitPrime", "all", 4usize, 60usize, 8usize, 16usize), ("Fp32BitPrime", "2", 4, 60, 8, 16)] {
+                out.push(format!("c04.race {field} {who} {threads} {} {steps} {rpb} {}", rounds * k, rng.below(1 << 40)));
+            }
+            for rep in 0..3 * k {
+                for (field, rpb, count, prog) in [
+                    ("Fp32BitPrime", 64usize, 64usize, "u.u.m0:1.m2:0"),
+                    ("Fp32BitPrime", 32, 96, "u.u.u.m0:1.m3:2"),
+                    ("Fp25519", 16, 32, "u.u.m0:1"),
+                ] {
+                    let inputs = gen_inputs(rng, field, prog, count, rep == 0, false);
+                    out.push(format!("c04.honest {field} {rpb} {count} {} {prog} {inputs}", rng.below(1 << 30)));
+                }
+            }
+            out
+        },
+        |req| if req.starts_with("c04.race ") { exec_race(req) } else { exec_mac(req) },
+    );
+}
